@@ -36,6 +36,7 @@ public:
                  * When the calculation process in this loop is executed,
                  * there is no way to escape from the loop, so the following line is required.
                  */
+                YAKUSHIMA_VERIF_PRE(k_load, o_end_flag, &kEpochThreadEnd);
                 if (kEpochThreadEnd.load(std::memory_order_acquire)) break;
             }
             epoch_management::epoch_inc();
@@ -59,6 +60,7 @@ public:
                 garbage_collection::set_gc_epoch(epoch_management::get_epoch() -
                                                  1);
             }
+            YAKUSHIMA_VERIF_PRE(k_load, o_end_flag, &kEpochThreadEnd);
             if (kEpochThreadEnd.load(std::memory_order_acquire)) { break; }
         }
     }
@@ -67,6 +69,7 @@ public:
         for (;;) {
             sleepMs(YAKUSHIMA_EPOCH_TIME);
             thread_info_table::gc();
+            YAKUSHIMA_VERIF_PRE(k_load, o_end_flag, &kGCThreadEnd);
             if (kGCThreadEnd.load(std::memory_order_acquire)) { break; }
         }
     }
@@ -82,10 +85,12 @@ public:
     static void join_gc_thread() { kGCThread.join(); }
 
     static void set_epoch_thread_end() {
+        YAKUSHIMA_VERIF_PRE(k_store, o_end_flag, &kEpochThreadEnd);
         kEpochThreadEnd.store(true, std::memory_order_release);
     }
 
     static void set_gc_thread_end() {
+        YAKUSHIMA_VERIF_PRE(k_store, o_end_flag, &kGCThreadEnd);
         kGCThreadEnd.store(true, std::memory_order_release);
     }
 
